@@ -192,6 +192,8 @@ def translate(pe) -> Skeleton:
                 raise TranslateError("unexpected while loop: " + ast.unparse(st)[:120])
             if isinstance(st, ast.Expr) and isinstance(st.value, ast.Call):
                 c = st.value
+                if isinstance(c.func, ast.Attribute) and _is_name(c.func.value, "logger"):
+                    continue      # logging touches none of the modelled globals
                 if isinstance(c.func, ast.Attribute) and _is_name(c.func.value) and c.func.attr == "append":
                     if (len(c.args) == 1 and isinstance(c.args[0], ast.Tuple) and len(c.args[0].elts) == 3
                             and _is_name(c.args[0].elts[2], env["orig_var"])):
